@@ -81,13 +81,22 @@ def compliant_spec(r):
     return sp
 
 
+def _fresh(ops, name):
+    """`name`, made different from every name in use: two channels of one frame under one (bad) name are refused in and out
+    of the context, for a reason that has nothing to do with the mode (false alarm of thorough run 5)."""
+    used = {o.get('name') for o in ops} | {o.get('value') for o in ops if o['op'] == 'setattr'}
+    while name in used:
+        name += ' b'
+    return name
+
+
 def breach(sp, a, r):
     ops = sp['ops']
     ch = [i for i, o in enumerate(ops) if o['op'] == 'channel']
     fr = [i for i, o in enumerate(ops) if o['op'] == 'frame']
     if a == 'object-name':
         i = r.choice([k for k, o in enumerate(ops) if o['op'] in schema.TYPES])
-        ops[i]['name'] = r.choice(['lower case', 'Mixed', 'DOT.TED', 'SPA CE', 'hash#'])
+        ops[i]['name'] = _fresh(ops, r.choice(['lower case', 'Mixed', 'DOT.TED', 'SPA CE', 'hash#']))
     elif a == 'set-identifier':
         sp['sul']['set_identifier'] = r.choice(['Default Storage Set', 'lower', 'A.B'])
     elif a == 'header-id':
@@ -121,7 +130,7 @@ def breach(sp, a, r):
     elif a == 'renamed-after-creation':
         # a compliant object is given a non-compliant name AFTER it has been created
         i = r.choice([k for k, o in enumerate(ops) if o['op'] in ('zone', 'equipment', 'axis', 'frame', 'channel', 'calibration_coefficient')])
-        ops.append({'op': 'setattr', 'target': i, 'field': 'name', 'value': r.choice(['lower case', 'Mixed', 'DOT.TED'])})
+        ops.append({'op': 'setattr', 'target': i, 'field': 'name', 'value': _fresh(ops, r.choice(['lower case', 'Mixed', 'DOT.TED']))})
     elif a == 'header-id-reassigned':
         ops.append({'op': 'set_header', 'lf': 0, 'field': 'header_id', 'value': r.choice(['My header', 'x', 'HDR 1'])})
     elif a == 'set-identifier-reassigned':
